@@ -524,10 +524,27 @@ func specU33(data []byte, k int) uint64 {
 
 // The splice_insert and segmentation-descriptor encoders are not verified: UpdateData relies only
 // on these assumed frame contracts (they allocate their result and write nothing else).
+// specCompsOK: every component of a splice_insert is one of the library's.
+func specCompsOK(cs []Component) bool {
+	return verifForall(0, len(cs), func(k int) bool { p, ok := cs[k].(*component); return ok && p != nil })
+}
+
+//@ transparent component.ComponentTag component.HasPTS component.PTS
+
 //@ func (c *spliceInsert) Data() []byte
-//@   trusted
-//@   ensures len(result) < 1<<20
+//@   props C09 C05
+//@   requires c != nil && specCompsOK(c.components) && len(c.components) < 4096
+//@   ensures fresh(result) && len(result) >= 10 && len(result) < 1<<20
+//@   ensures result[0] == byte(c.eventID>>24) && result[1] == byte(c.eventID>>16) && result[2] == byte(c.eventID>>8) && result[3] == byte(c.eventID)
+//@   ensures (result[4] >= 128) == c.eventCancelIndicator && result[4]%128 == 0x7f
 //@   modifies nothing
+//@   loop 1 (rangeindex int, componentsBytes []byte, bytes []byte)
+//@     invariant c != nil && specCompsOK(c.components) && -1 <= rangeindex && rangeindex < len(c.components)
+//@     invariant fresh(componentsBytes) && 1 <= len(componentsBytes) && len(componentsBytes) <= 1+6*(rangeindex+1)
+//@     invariant fresh(bytes) && verifSeparate(bytes, componentsBytes) && 6 <= len(bytes) && len(bytes) <= 11
+//@     invariant bytes[0] == byte(c.eventID>>24) && bytes[1] == byte(c.eventID>>16) && bytes[2] == byte(c.eventID>>8) && bytes[3] == byte(c.eventID)
+//@     invariant (bytes[4] >= 128) == c.eventCancelIndicator && bytes[4]%128 == 0x7f
+//@     decreases len(c.components) - rangeindex
 
 //@ func (d *segmentationDescriptor) Data() []byte
 //@   trusted
@@ -539,12 +556,20 @@ func specDescsAllOK(ds []SegmentationDescriptor) bool {
 	return verifForall(0, len(ds), func(k int) bool { _, ok := ds[k].(*segmentationDescriptor); return ok && ds[k] != nil })
 }
 
+// specCmdEncodable: a splice_insert's components are the library's and fewer than 4096.
+func specCmdEncodable(c SpliceCommand) bool {
+	if v, ok := c.(*spliceInsert); ok {
+		return v != nil && specCompsOK(v.components) && len(v.components) < 4096
+	}
+	return true
+}
+
 // specSecLen: section_length as UpdateData computes it.
 func specSecLen(cmdLen int, descLoopLen int, stuffing int) int { return 13 + cmdLen + descLoopLen + 4 + stuffing }
 
 //@ func (s *scte35) UpdateData() []byte
 //@   props C09 C13 C05
-//@   requires s != nil && specCmdOK(s.commandInfo) && specDescsAllOK(s.descriptors) && len(s.otherDescriptorBytes) < 1<<20 && len(s.descriptors) < 1<<10 && s.alignmentStuffing < 1<<16
+//@   requires s != nil && specCmdOK(s.commandInfo) && specCmdEncodable(s.commandInfo) && specDescsAllOK(s.descriptors) && len(s.otherDescriptorBytes) < 1<<20 && len(s.descriptors) < 1<<10 && s.alignmentStuffing < 1<<16
 //@   ensures fresh(result) && len(result) >= 3+13+4 && len(result) < 1<<40
 //@   ensures s.tableHeader.SectionLength == uint16(len(result)-3) && result[0] == s.tableHeader.TableID
 //@   ensures result[2] == byte(s.tableHeader.SectionLength) && result[1]%4 == byte(s.tableHeader.SectionLength>>8)%4 && (result[1]/16)%4 == 3
@@ -555,6 +580,7 @@ func specSecLen(cmdLen int, descLoopLen int, stuffing int) int { return 13 + cmd
 //@   loop 1 (rangeindex int, descriptorBytes []byte)
 //@     invariant s != nil && -1 <= rangeindex && rangeindex < len(s.descriptors) && fresh(descriptorBytes) && len(descriptorBytes) >= 2 && len(descriptorBytes) <= 2+len(s.otherDescriptorBytes)+(rangeindex+1)*(1<<20)
 //@     invariant specDescsAllOK(s.descriptors) && s.commandInfo == old(s.commandInfo)
+//@     invariant rangeindex+1 >= len(s.descriptors) || s.descriptors[rangeindex+1] != nil
 //@     decreases len(s.descriptors) - rangeindex
 
 
